@@ -252,18 +252,29 @@ func main() {
 	// usage: c26 <map name|all> <cases.ndjson>   (the orchestrator calls it once per
 	// era and map so that one run never exceeds the reporter's disagreement cap)
 	if len(os.Args) < 3 {
-		rep.Dead("usage: c26 <map|all> <cases.ndjson> | --replay <file>")
+		rep.Dead("usage: c26 <map|all> <cases.ndjson> [T] | --replay <file>")
 	}
 	only := os.Args[1]
 	rows, err := vh.ReadNDJSON[row](os.Args[2])
 	if err != nil || len(rows) == 0 {
 		rep.Dead("cases: %v (%d rows)", err, len(rows))
 	}
+	// T: the top of the abstract time line (given by the orchestrator when the
+	// case file is only a chunk of the grid)
 	T := 0
 	for _, c := range rows {
-		if c.Slot > T {
-			T = c.Slot
+		for _, x := range []int{c.Slot, c.Start, c.End} {
+			if x > T {
+				T = x
+			}
 		}
+	}
+	if len(os.Args) >= 4 {
+		t, err := strconv.Atoi(os.Args[3])
+		if err != nil || t < T {
+			rep.Dead("bad T %q (cases reach %d)", os.Args[3], T)
+		}
+		T = t
 	}
 	maps := timeMaps(T, rng)
 	if only != "all" {
